@@ -53,7 +53,15 @@ def judge(src: str):
         ep = nodes_of(text)
         got = canon_ast.canon_tranp_module(ep)
         # the same node objects read again with the properties in the other order, then a fresh tree read in that order
-        for again in (canon_ast.canon_tranp_module(ep, 'statements-first'), canon_ast.canon_tranp_module(ep), canon_ast.canon_tranp_module(nodes_of(text), 'statements-first')):
+        def walked():
+            # a fresh tree that has been flattened once before it is read (what module expansion and every Procedure run do)
+            ep2 = nodes_of(text)
+            try:
+                list(ep2.procedural())
+            except Errors.Error:
+                pass
+            return canon_ast.canon_tranp_module(ep2)
+        for again in (canon_ast.canon_tranp_module(ep, 'statements-first'), canon_ast.canon_tranp_module(ep), canon_ast.canon_tranp_module(nodes_of(text), 'statements-first'), walked()):
             if again != got and got == want:
                 got = again
                 break
